@@ -120,3 +120,40 @@ func TestC12Duplex(t *testing.T) {
 	}
 	ev.Exhaustive(fmt.Sprintf("%d rounds of %d frames each way with the stream sending and receiving concurrently against the reference codec", rounds, per))
 }
+
+// TestC12FirstFrameNearLimit: the first protected frame of a direction also carries the 16-byte base IV; payloads
+// within 48 bytes of the 1 MiB frame limit as the FIRST protected frame, as a later one, after a cleartext
+// prefix and after the same key was installed again - every frame must still follow the format (and fit).
+func TestC12FirstFrameNearLimit(t *testing.T) {
+	const MiB = 1 << 20
+	bad := 0
+	n := 0
+	for _, sz := range []int{MiB - 48, MiB - 33, MiB - 32, MiB - 31, MiB - 24, MiB - 17, MiB - 16, MiB - 15, MiB - 1, MiB} {
+		for variant := 0; variant < 4; variant++ {
+			n++
+			if !kit.Thorough() && (n+variant)%2 == 0 {
+				continue
+			}
+			var s Session
+			if variant == 1 {
+				s.PreAB, s.PreBA = [][]int{{40}}, [][]int{{8, 300}}
+			}
+			s.Ops = []Op{{Kind: "send", Dir: 0, Sizes: []int{sz}}, {Kind: "send", Dir: 1, Sizes: []int{sz}}, {Kind: "send", Dir: 0, Sizes: []int{sz}}, {Kind: "send", Dir: 1, Sizes: []int{5}}}
+			if variant == 2 {
+				s.Ops = append([]Op{{Kind: "send", Dir: 0, Sizes: []int{3}}}, s.Ops...)
+			}
+			if variant == 3 {
+				s.Ops = append(s.Ops, Op{Kind: "rekey"}, Op{Kind: "send", Dir: 1, Sizes: []int{sz}}, Op{Kind: "send", Dir: 0, Sizes: []int{sz, 7}})
+			}
+			c := Case{Salt: uint32(3000 + n), Sessions: []Session{s}}
+			v, st := runCase(c)
+			record(c, st)
+			if v != "" && bad < 4 {
+				bad++
+				kit.Violation("C12", v, c)
+				t.Errorf("C12 violated: %s", v)
+			}
+		}
+	}
+	ev.Exhaustive("10 payload sizes within 48 bytes of the 1 MiB frame limit as first / later protected frame of a direction x {plain start, cleartext prefix, small frame first, same key installed again}")
+}
